@@ -23,6 +23,9 @@ def orders : Orders where
   chDiffDifference := Facts.C03.chDiffDifference.map Call.ofCode
   chDiffEmpty := Facts.C03.chDiffEmpty.map Call.ofCode
   chDiffTooLong := Facts.C03.chDiffTooLong.map Call.ofCode
+  diffGuard := Facts.C03.diffGuard
+  sliceGuard := Facts.C03.sliceGuard
+  chDiffGuard := Facts.C03.chDiffGuard
   applyPtsBreak := decide (Facts.C03.applyPtsSkip ≠ 0)
   chApplyPtsBreak := decide (Facts.C03.chApplyPtsSkip ≠ 0)
   ownDirect := Facts.C03.ownDirect
